@@ -2,6 +2,7 @@ package props
 
 import (
 	"bytes"
+	"crypto/rand"
 	"fmt"
 
 	"github.com/veraison/psatoken"
@@ -153,6 +154,23 @@ func runC03(c *mon.Ctx) {
 			// token it must expose exactly this token's claims
 			if reuse03 == nil {
 				reuse03 = &psatoken.Evidence{}
+			}
+			if i%5 == 2 {
+				// first a validly signed envelope whose payload is not decodable as claims:
+				// whatever is left behind, Verify must not succeed with stale claims attached
+				badPay := refcbor.Encode(refcbor.MapOf(refcbor.I(model.P2KProfile), refcbor.Tstr(model.P2Name), refcbor.I(model.P2KLifecycle), refcbor.Tstr("not-an-integer")))
+				if sg, serr := k.Signer.Sign(rand.Reader, refcose.SigStructure(st.env.ProtectedBS, badPay)); serr == nil {
+					if uerr := reuse03.UnmarshalCOSE(sign1Bytes(st.env.ProtectedBS, nil, badPay, sg)); uerr == nil {
+						bad("undecodable-claims-accepted", "an envelope whose payload does not decode as claims was accepted", d)
+						return
+					}
+					if reuse03.Verify(k.Pub) == nil && reuse03.Claims != nil {
+						bad("stale-claims-after-failed-decode", "after a FAILED decode of a validly signed envelope the Evidence verifies and still exposes the claims of an earlier token", d)
+						reuse03 = nil
+						return
+					}
+					c.Count("reused-evidence-failed-decodes")
+				}
 			}
 			if err := reuse03.UnmarshalCOSE(st.tok); err != nil {
 				bad("reused-evidence-decode-failed", "an Evidence that decoded other tokens before rejects this valid token: "+err.Error(), d)
